@@ -130,6 +130,12 @@ func (idx *RoaringMetadataIndex) Add(node MetadataNode) error {
 	docID := node.ID()
 	metadata := node.Metadata()
 
+	// Reject unsupported values before touching any bitmap, so that a failed Add
+	// leaves the index exactly as it was
+	if err := validateMetadata(metadata); err != nil {
+		return err
+	}
+
 	idx.allDocs.Add(docID)
 
 	for key, value := range metadata {
@@ -150,6 +156,18 @@ func (idx *RoaringMetadataIndex) Add(node MetadataNode) error {
 		}
 	}
 
+	return nil
+}
+
+// validateMetadata reports the first value whose type the metadata index cannot store.
+func validateMetadata(metadata map[string]interface{}) error {
+	for key, value := range metadata {
+		switch value.(type) {
+		case int, int64, float64, string, bool:
+		default:
+			return fmt.Errorf("unsupported type for key %s: %T", key, value)
+		}
+	}
 	return nil
 }
 
